@@ -690,6 +690,10 @@ def run(rep, prog, tier):
     m = prog.mod(SM)
     rep.saw_file(m.rel)
     check_fold_unfold(rep, prog, m)
+    for q in ('Spectrum._total_per_entry', 'Spectrum._counts_per_entry', 'Spectrum.fold', 'Spectrum.unfold', 'Spectrum._ensure_shape_and_dimension'):
+        if q in m.funcs:
+            generic.rule_dtype(rep, m, prog.func(SM, q), 'the per-entry allele totals that decide which entries are folded are held in a wide fixed type (no wrap-around when the total sample exceeds 255 / 65535)')
+    rep.floor('R-DTYPE', 4)
     check_misid(rep, prog)
     check_operators(rep, prog, m)
     check_likelihood_guards(rep, prog)
